@@ -125,6 +125,9 @@ def corpus_defs(tier):
     d['cli'] = dict(trace='TraceCli', rand=[dict(gen='cli', n=0, rel=None, facets=None)], cli_info=True)
     # --- valtab: dry-run validators and FromStr/Display surfaces (specification growth beyond the list) ----
     d['valtab'] = dict(trace='TraceVal', kind='valtab')
+    # --- long: 2 000 - 20 000 frame recordings (no accumulated drift), thorough tier only -----------------
+    d['long'] = dict(trace='TraceMuxide', rand=[dict(gen='mux_long', n=2 if q else 14, rel='none',
+                                                     facets={'bytes': False, 'timing': True, 'tree': False, 'raw': False})])
     return d
 
 
